@@ -115,6 +115,21 @@ def verify_unit_worker(qualname: str) -> dict:
                                 break
                 rec["replay"] = rp
             out["obligations"].append(rec)
+        # vacuity guard: the assumptions of the last obligation on every path must be satisfiable
+        # (`unknown` is accepted: with quantified axioms z3 rarely answers sat)
+        last = {}
+        for ob in r.obligations:
+            last[ob.path] = ob
+        vac = []
+        for path, ob in last.items():
+            s = z3.Solver()
+            s.set("timeout", 1500)
+            s.add(*r.axioms)
+            s.add(*ob.assumptions)
+            if s.check() == z3.unsat:
+                vac.append(path or "entry")
+        out["vacuous_paths"] = vac
+        out["paths_checked"] = len(last)
     except Exception:
         out["error"] = traceback.format_exc()
     out["wall_s"] = round(time.time() - t0, 3)
@@ -200,6 +215,8 @@ def check_property(prop: str, tier: str, seed: int, write_baseline=False, only_u
         changed = b_unit.get("sha256") not in (None, r.get("sha256"))
         if r.get("vacuous_requires"):
             errors.append(f"{r['unit']}: contradictory requires (vacuous)")
+        for vp in r.get("vacuous_paths", []):
+            errors.append(f"{r['unit']}: path `{vp}` has an unsatisfiable context (vacuous proof)")
         if r.get("unsupported"):
             was = b_unit.get("unsupported")
             undecided.append({"unit": r["unit"], "why": r["unsupported"], "baseline_same": bool(was), "changed": changed})
